@@ -336,7 +336,6 @@ func VerifHarness_C07_O3() {
 	verifReach("end")
 }
 
-
 // C07/O4 — every field is covered by a signature: a valid, correctly signed
 // next event of A (carrying a join request signed by the joining peer and a
 // block signature) is accepted; the same event with ANY single field altered
